@@ -57,6 +57,8 @@ def classify_l1(c, model, prop):
     feats = c["feats"].split(",")
     go = c["go"]
     out = []
+    if go.startswith("HANG"):
+        return [dict(layer="property", what="Conn.ReadBatch / Batch.ReadMessage / Batch.Close did not return (loop without progress)", input=c)]
     if go != model:
         relaxed = False
         if "physcut" in feats and any(f.startswith("codec") for f in feats) and model is not None:
@@ -70,6 +72,8 @@ def classify_l1(c, model, prop):
                 out.append(dict(layer="property", what="byte level: Conn.ReadBatch result differs from the model and breaks the fetch predicate", input=c))
     if "unordered-formats" in feats or "cut<first" in feats:
         return out       # outside the broker specification: compared with the model only
+    if go.startswith("HANG"):
+        return [dict(layer="property", what="Conn.ReadBatch / Batch.ReadMessage / Batch.Close did not return (loop without progress)", input=c)]
     if go == "panic":
         out.append(dict(layer="property", what="Conn.ReadBatch / Batch.ReadMessage panicked", input=c))
     elif prop == "VIOLATED":
@@ -119,7 +123,10 @@ def correspondence(ctx):
     n = ctx.scale(60, 1500)
     ne = ctx.scale(30, 400)
     rc, out, err, dt = L.sh([gobin, "-seed", str(ctx.seed), "-n", str(n), "-e2e", str(ne)], timeout=3000)
-    if rc != 0:
+    if rc == 4:
+        # three fetch decodes did not return: the cases emitted so far (the hung ones have result HANG) are judged below
+        ctx.notes.append("harness stopped after three hung fetch decodes: " + err.strip()[-300:])
+    elif rc != 0:
         raise L.Fail("correspondence", "harness cmd/c02 crashed or hung (watchdog)", (out[-1500:] + err[-2500:]))
     cases = []
     for c in L.parse_cases(out):
